@@ -1,4 +1,5 @@
 import HcModel.Generated.WritePath
+import HcModel.SessLookup
 import HcProofs.Lemmas.ConnWrite
 /-
   C08 — concurrent writers never corrupt the encrypted stream.
@@ -174,5 +175,32 @@ def lockRegionOk : List String → Bool
     of the locked writer program the theorems above are about: `Lock`, deferred `Unlock`, then Encrypt and the socket
     write and nothing else — in particular no unlock before the write, no read-lock, no try-lock, no goroutine. -/
 theorem lock_region_regenerated : lockRegionOk Hc.Generated.writePath = true := by decide
+
+open Hc.SessLookup in
+/-- A connection that is closed while something is being written to it (the application sends a notification from its
+    own goroutine; net/http's goroutine closes the connection and deletes its session): wherever the deletion falls
+    among the write's session lookups, the write does not panic, and on a verified connection nothing goes out
+    unencrypted — the payload is sealed, or the write is refused. -/
+theorem close_during_write (verified : Bool) (d : Option Nat) :
+    write true verified d ≠ .panic ∧
+    (verified = true → write true verified d = .sealed ∨ write true verified d = .refused) ∧
+    (d = none → verified = true → write true verified d = .sealed) := by
+  cases verified <;> cases d <;> simp [write, present] <;> (try split) <;> (try simp) <;> (try omega)
+
+open Hc.SessLookup in
+/-- the same for a read that finds a complete frame while the connection is being closed -/
+theorem close_during_read (verified : Bool) (d : Option Nat) : SessLookup.read true verified d ≠ .panic := by
+  cases verified <;> cases d <;> simp [SessLookup.read, present] <;> (repeat' split) <;> simp
+
+open Hc.SessLookup in
+/-- before the F20 repair: session deleted between Write's test and EncryptedWrite's use ⇒ nil dereference in the
+    application's goroutine (the whole accessory process dies); deleted before the test ⇒ the notification goes out in
+    PLAINTEXT on a verified connection; and the same dereference in a background read -/
+theorem close_race_unfixed_refuted :
+    write false true (some 1) = .panic ∧ write false true (some 0) = .raw ∧ SessLookup.read false true (some 1) = .panic := by decide
+
+/-- the source as it is now performs exactly one session lookup per `Write` (Generated/WritePath.lean), which is what
+    `write true` models -/
+theorem write_looks_session_up_once : Hc.Generated.writeLookups = 1 := by decide
 
 end Hc.Props.C08
